@@ -492,6 +492,10 @@ fn check_survival(kind: &str, body: &str) -> Verdict {
     let src = format!("{} f() {{ return {}; }}\n", ty, lit);
     let out = match compile_text(&src, Tgt::Dx) {
         Err(p) => return Verdict::fail(format!("panic:{}", p), format!("source: {}", src)),
+        Ok(Err(_)) if kind == "u" && body.parse::<u64>().map(|v| v > u32::MAX as u64).unwrap_or(false) => {
+            // no integer type of the language holds the written value: rejection is the other allowed outcome
+            return Verdict::pass(Some(hash_of(&src)), vec!["survival_u_beyond_32_bits_rejected".into()]);
+        }
         Ok(Err(e)) => return Verdict::Skip(format!("rejected: {}", normalise_panic(e.lines().next().unwrap_or("")))),
         Ok(Ok(p)) => pipeline_text(&p[0]),
     };
@@ -544,7 +548,11 @@ fn check_survival(kind: &str, body: &str) -> Verdict {
     if !ok {
         return Verdict::fail(format!("survival:value-changed:{}", ty), format!("source: {}\nemitted literal: {}", src.trim(), emitted));
     }
-    Verdict::pass(Some(hash_of(&src)), vec![format!("survival_{}", kind)])
+    let mut labels = vec![format!("survival_{}", kind)];
+    if kind == "u" && body.parse::<u64>().map(|v| v > u32::MAX as u64).unwrap_or(false) {
+        labels.push("survival_u_beyond_32_bits".into());
+    }
+    Verdict::pass(Some(hash_of(&src)), labels)
 }
 
 // ---------------------------------------------------------------------------------------------
@@ -569,7 +577,7 @@ pub fn check_record(rec: &Value) -> Verdict {
 }
 
 pub fn run(ctx: &mut Ctx) {
-    ctx.rule = "(a) texts built from every token kind (identifiers incl. keyword look-alikes, all punctuators, strings, numbers) with spaces/tabs/LF/CRLF/line and block comments/backslash splices between them, with and without separators and final newline; oracle = spans contiguous, ordered, start 0, end len, slices concatenate to the input, separated pieces come back as exactly one token each, error positions within [0,len]; non-trivial = >= 12 tokens and >= 3 trivia kinds. (b) decimal/hex/octal integer spellings up to 25 digits x every suffix, biased to 2^31, 2^32, 2^63, 2^64 +- 1; exact value via u128 or rejection when >= 2^64; non-trivial = value > 999 or non-decimal. (c) decimal float spellings with up to 20 significant digits, exponents in [-330,310], forms 1. 1.5 1e5 1.5e-5, every suffix; oracle = bits of Rust's correctly rounded str::parse::<f64> (narrowed once with `as f32` for f/h); non-trivial = more than 3 significant digits. (d) survival: the literal is compiled inside `T f() { return <lit>; }` to DirectX HLSL and the emitted literal, re-read with Rust's parser in the emitted type, must have the same value. Distinct = hash of the input text.".into();
+    ctx.rule = "(a) texts built from every token kind (identifiers incl. keyword look-alikes, all punctuators, strings, numbers) with spaces/tabs/LF/CRLF/line and block comments/backslash splices between them, with and without separators and final newline; oracle = spans contiguous, ordered, start 0, end len, slices concatenate to the input, separated pieces come back as exactly one token each, error positions within [0,len]; non-trivial = >= 12 tokens and >= 3 trivia kinds. (b) decimal/hex/octal integer spellings up to 25 digits x every suffix, biased to 2^31, 2^32, 2^63, 2^64 +- 1; exact value via u128 or rejection when >= 2^64; non-trivial = value > 999 or non-decimal. (c) decimal float spellings with up to 20 significant digits, exponents in [-330,310], forms 1. 1.5 1e5 1.5e-5, every suffix; oracle = bits of Rust's correctly rounded str::parse::<f64> (narrowed once with `as f32` for f/h); non-trivial = more than 3 significant digits. (d) survival: the literal is compiled inside `T f() { return <lit>; }` to DirectX HLSL and the emitted literal, re-read with Rust's parser in the emitted type, must have the same value; u-suffixed integers are drawn up to 2^64 (biased to 2^32 +- 16): beyond 32 bits the only other allowed outcome is rejection. Distinct = hash of the input text.".into();
     ctx.assumptions.push("trusted base: Rust's str::parse::<f64>/<f32> are correctly rounded".into());
     ctx.assumptions.push("L-suffixed integer values in [2^63,2^64) are outside the checked domain (the property does not say signed or unsigned)".into());
     ctx.assumptions.push("0X (upper-case prefix) and decimal spellings with a leading zero followed by 8/9 are not generated".into());
@@ -611,12 +619,23 @@ pub fn run(ctx: &mut Ctx) {
             prop_oneof![
                 4 => (float_strategy(), prop_oneof![Just("f"), Just("h"), Just("L"), Just("untyped_float"), Just("untyped_double")]).prop_map(|(c, k)| (k.to_string(), float_text(&c).0)),
                 1 => (any::<u32>(), any::<bool>()).prop_map(|(v, u)| if u { ("u".to_string(), v.to_string()) } else { ("int".to_string(), (v >> 1).to_string()) }),
+                // u-suffixed values at and beyond 2^32: the written value must come out unchanged or the literal must be
+                // rejected (there is no 64-bit integer type it could have); never a silently truncated value
+                1 => (any::<u64>(), 0u32..34, any::<u8>()).prop_map(|(v, sh, b)| {
+                    let v = match b % 4 {
+                        0 => (1u64 << 32) + (v >> 60),
+                        1 => (1u64 << 32) - 1 - (v >> 62),
+                        2 => ((v >> 32) << 32) | (v & 0xf),
+                        _ => v >> sh,
+                    };
+                    ("u".to_string(), v.to_string())
+                }),
             ]
         },
         |(k, body): &(String, String)| json!({"kind": "survival", "lit_kind": k, "body": body}),
         check_record,
     );
-    for l in ["soup_separated", "soup_adjacent", "has_splice", "has_crlf", "int_too_large_rejected", "float_denormal", "survival_f", "survival_L", "survival_u"] {
+    for l in ["soup_separated", "soup_adjacent", "has_splice", "has_crlf", "int_too_large_rejected", "float_denormal", "survival_f", "survival_L", "survival_u", "survival_u_beyond_32_bits_rejected"] {
         ctx.require_label(l, 5);
     }
     if ctx.tier == Tier::Thorough && ctx.failures.is_empty() {
